@@ -45,11 +45,23 @@ def rand_case(rng, kinds=("hash", "probe", "counter"), memo="False", maxdim=6):
         c["T"] = rng.randint(1, 4)
     if rng.random() < 0.3:
         c["layout"] = rng.choice(["F", "rev", "str", "T"])     # row-major means by index, whatever the memory order
+    from .c03 import decorate
+    decorate(rng, c)
     return c
 
 
 def gen(ctx):
     rng = ctx.rng
+    for (R, C) in ([(66, 2), (2, 70)] if ctx.tier == "quick" else [(66, 2), (2, 70), (65, 3), (3, 64)]):
+        for dyn in (0, 1):
+            c = dict(kind="ev2", hist=[[[rng.randrange(3) for _ in range(C)] for _ in range(R)]], dtype="int32", scale=1, r=1,
+                     nb=rng.choice(["moore", "vn"]), rule="shiftc:3:0", memo="False")
+            if dyn:
+                c["pred"] = "steps:2"
+                c["fuel"] = 8
+            else:
+                c["T"] = 3
+            yield c
     for (R, C, r) in [(1, 1, 0), (1, 1, 1), (1, 3, 1), (3, 1, 1), (2, 3, 2), (3, 4, 3), (2, 2, 2), (4, 3, 0)]:
         for nb in ("moore", "vn"):
             yield dict(kind="ev2", hist=[[[(i * 3 + j * j) % 3 for j in range(C)] for i in range(R)]], dtype="int32",
